@@ -12,7 +12,7 @@ META = {
              'comprehension starts at for/async, match_case at case, decorated defs bloc starts at the first "@"; children inside parents, siblings ordered without overlap; '
              'pars(): the count must equal the number of enclosing ( ) pairs that the PARSER judges to be redundant grouping parentheses (replace the pair interior by _x_: '
              'source with the pair kept and with it dropped must parse to the same structure); find_in_loc / find_contains_loc(True/False/"top") / find_loc compared with a '
-             'brute-force scan over all nodes for rectangles from all token boundaries (+ random off-token ones). A cell is (check, node class, layout class). Searches are started from the root and from sampled non-root nodes (brute force restricted to the start node\'s subtree); rectangles include those sharing the start and end COLUMN of a multi-line node on a different line; find_loc without an exact match must return the find_in_loc answer if there is one, else the find_contains_loc answer (documented preference). Every location clause is also evaluated on LIVE trees after 1-3 random structured edits (location caches primed first; REAL windows and the GRAMMAR programs): when the edited tree is structurally in sync with its source, each node's loc must equal the positions of an independent CPython parse of the current source and lie on token boundaries (a stale cached or incrementally offset location is a violation here as well as under C01/C02); a pars() probe whose substituted text CPython rejects is inconclusive and not judged.'),
+             'brute-force scan over all nodes for rectangles from all token boundaries (+ random off-token ones). A cell is (check, node class, layout class). Searches are started from the root and from sampled non-root nodes (brute force restricted to the start node\'s subtree); rectangles include those sharing the start and end COLUMN of a multi-line node on a different line; find_loc without an exact match must return the find_in_loc answer if there is one, else the find_contains_loc answer (documented preference). Every location clause is also evaluated on LIVE trees after 1-3 random structured edits (location caches primed first; REAL windows and the GRAMMAR programs): when the edited tree is structurally in sync with its source, the loc of each node must equal the positions of an independent CPython parse of the current source and lie on token boundaries (a stale cached or incrementally offset location is a violation here as well as under C01/C02); a pars() probe whose substituted text CPython rejects is inconclusive and not judged.'),
     'budget': {'quick': 45, 'thorough': 900},
     'floors': {'quick': {'edited_trees_judged': 400, 'search_start_nodes_below_root': 2500, 'nodes_located': 60000, 'pars_judged': 10000, 'search_rects': 30000, 'operators_checked': 1500},
                'thorough': {'search_start_nodes_below_root': 15000, 'nodes_located': 1500000, 'pars_judged': 250000, 'search_rects': 800000, 'operators_checked': 40000}},
